@@ -63,6 +63,12 @@ cases = [
     parsed("-1 $ c\n     2", AND(s(1, "-"), s(2)), [{"k": "setop", "o": "union"}, W]),
     parsed("(1:2)(3:4)", AND(PAR(OR(s(1), s(2))), PAR(OR(s(3), s(4)))), [{"k": "setop", "o": "union"}, W]),
     parsed("1 2 3", AND(AND(s(1), s(2)), s(3)), [W, {"k": "setop", "o": "union"}, op("and", s(4)), W]),
+    # histories that need a write before an edit of an INNER HalfSpace (seeded change C02c: _ensure_has_nodes skipped
+    # _link_child when node/operator/children's nodes were those of the last write; the child's operator is not in the key)
+    parsed("1 -2 3", AND(AND(s(1), s(2, "-")), s(3)), [W, {"k": "setop", "o": "union", "sel": 1}, W]),
+    parsed("1 2 3 4", AND(AND(AND(s(1), s(2)), s(3)), s(4)), [W, {"k": "setop", "o": "union", "sel": 2}, W, {"k": "setop", "o": "union", "sel": 1}, W]),
+    geom.make_case("scratch", AND(AND(s(1), s(2)), s(3)), [W, {"k": "setop", "o": "union", "sel": 1}, W]),
+    parsed("1 (2 3)", AND(s(1), PAR(AND(s(2), s(3)))), [W, dict(op("ior", s(4)), sel=3), W, dict(op("replace", OR(s(5), s(6))), sel=1), W]),
 ]
 json.dump({"what": "minimised cases of the C02 defects repaired on branch fix-C02", "cases": cases},
           open(os.path.join(here, "fixed_defects.json"), "w"), indent=1, sort_keys=True)
